@@ -1,4 +1,4 @@
-package props
+package c01
 
 import (
 	"errors"
@@ -12,6 +12,7 @@ import (
 
 	"verifharness/gen"
 	"verifharness/model"
+	"verifharness/pt"
 	"verifharness/sut"
 )
 
@@ -23,7 +24,7 @@ type c01Case struct {
 }
 
 func genC01(t *rapid.T) *c01Case {
-	maxEv := scale(60, 300)
+	maxEv := pt.Scale(60, 300)
 	ds := gen.GenDataset(t, gen.DatasetOpts{MaxEvents: maxEv, MaxCols: 7, NullPct: 5})
 	return &c01Case{DS: ds, Layout: gen.GenLayout(t, len(ds.Events))}
 }
@@ -117,7 +118,7 @@ func valueMatches(want model.Val, got sut.TV, ci *colInfo, known *bool) bool {
 		}
 		// known finding C01-numtext-to-number: a numeric text in a column that also holds numbers
 		// (and no non-numeric value in the same block) is stored as the number it parses to.
-		if ci != nil && ci.hasNum && knownFindingOpen("C01-numtext-to-number") {
+		if ci != nil && ci.hasNum && pt.KnownFindingOpen("C01-numtext-to-number") {
 			if pf, err := strconv.ParseFloat(want.S, 64); err == nil {
 				if gf, ok := got.Float(); ok && floatSame(gf, pf) {
 					if known != nil {
@@ -150,7 +151,7 @@ func floatSame(a, b float64) bool {
 
 // compareRecords checks the multiset of returned records against the expected events.
 // Columns named in skipCols are ignored.
-func compareRecords(recs []sut.Record, want []*model.Event, info map[string]*colInfo, o *obs) error {
+func compareRecords(recs []sut.Record, want []*model.Event, info map[string]*colInfo, o *pt.Obs) error {
 	byVid := map[int64]*model.Event{}
 	for _, e := range want {
 		byVid[e.Vid] = e
@@ -185,7 +186,7 @@ func compareRecords(recs []sut.Record, want []*model.Event, info map[string]*col
 	return nil
 }
 
-func compareOne(r sut.Record, e *model.Event, info map[string]*colInfo, o *obs) error {
+func compareOne(r sut.Record, e *model.Event, info map[string]*colInfo, o *pt.Obs) error {
 	flat, _ := e.Flat()
 	ts, ok := r["timestamp"]
 	if !ok {
@@ -303,7 +304,7 @@ func hasDup(evs []*model.Event) bool {
 	return false
 }
 
-func checkC01(cs *c01Case, o *obs) error {
+func checkC01(cs *c01Case, o *pt.Obs) error {
 	evs := cs.DS.Events
 	info := columnInfo(evs)
 	flushes, rots := cs.Layout.Blocks()
@@ -336,12 +337,12 @@ func checkC01(cs *c01Case, o *obs) error {
 	}
 	o.Count("events", int64(len(evs)))
 	lo, hi := tsRange(evs)
-	return withWorker(sut.Options{}, func(c *sut.Client) error {
+	return pt.WithWorker(sut.Options{}, func(c *sut.Client) error {
 		err := applyLayout(c, "c01idx", 0, evs, cs.Layout, func(flushed []*model.Event, stage string) error {
 			sr, err := c.Search(sut.Query{Index: "c01idx", Text: "*", Start: lo, End: hi, Size: len(evs) + 10, IncludeNulls: true})
 			if err != nil {
 				if err == sut.ErrWorkerDied {
-					return fmt.Errorf("%s: server process died during match-all: %s", stage, crashDetail(c))
+					return fmt.Errorf("%s: server process died during match-all: %s", stage, pt.CrashDetail(c))
 				}
 				return fmt.Errorf("%s: search failed: %v", stage, err)
 			}
@@ -354,10 +355,10 @@ func checkC01(cs *c01Case, o *obs) error {
 			return nil
 		})
 		if errors.Is(err, sut.ErrWorkerDied) {
-			return fmt.Errorf("server process died (%v): %s", err, crashDetail(c))
+			return fmt.Errorf("server process died (%v): %s", err, pt.CrashDetail(c))
 		}
 		return err
 	})
 }
 
-func TestC01(t *testing.T) { runProp(t, "C01", genC01, checkC01) }
+func TestC01(t *testing.T) { pt.RunProp(t, "C01", genC01, checkC01) }
